@@ -37,3 +37,8 @@ GROUPS.append(lib("solution", ["C01", "C05", "C17"], loops="lib.json", nloops=6,
                   assumed=["lib/solution: only the cache branch (C != NULL, cache dimensions equal to the problem's); the branch that asks the simplex for its current solution is unreachable under this precondition"]))
 
 GROUPS.append(lib("getbasis", ["C12", "C14", "C17"], loops="lib.json", nloops=2, kind="bounded", bound=MAPCAP, must_fail=["reach_end", "reach_ranged_row_at_upper"]))
+
+GROUPS.append(Group("lib/solution_simplex", "lib_solution_simplex.c", tus=LIB + ["eg_lpnum.c"], model=MODEL, dfcc=False, unwind=5, kind="bounded", timeout=900, flags=["--no-malloc-may-fail"],
+                    bound="2 structural columns and 1 row (3 internal columns), logical column first or last, any subset of outputs, minimise or maximise; loops completely unwound",
+                    functions=["ILLlib_solution"], props=["C01", "C06", "C05", "C17"],
+                    assumed=["lib/solution_simplex: ILLsimplex_solution (the simplex' current vectors) is a stub delivering arbitrary values"]))
